@@ -1479,10 +1479,15 @@ class Fn:
 
     def stream_call(self, r, name, args, n, want):
         if name == 'write' and len(args) == 2:
-            self.emit('vf_stream_write(%s, %s, (long)(%s));' % (r, self.rv(args[0]), self.rv(args[1])))
+            a0, a1 = self.rv(args[0]), self.rv(args[1])
+            # call-site obligation (C13/C14): the n bytes handed to ostream::write lie inside one object
+            self.emit('VF_CHECK_WRITE_SRC(%s, (long)(%s));' % (a0, a1))
+            self.emit('vf_stream_write(%s, %s, (long)(%s));' % (r, a0, a1))
             return r
         if name == 'read' and len(args) == 2:
-            self.emit('vf_stream_read(%s, %s, (long)(%s));' % (r, self.rv(args[0]), self.rv(args[1])))
+            a0, a1 = self.rv(args[0]), self.rv(args[1])
+            self.emit('VF_CHECK_READ_DST(%s, (long)(%s));' % (a0, a1))
+            self.emit('vf_stream_read(%s, %s, (long)(%s));' % (r, a0, a1))
             return r
         if name == 'tellg' and not args:
             v = self.tmp()
